@@ -112,17 +112,17 @@ theorem Watson_nonneg (hν : 0 < ρ "nu2") (hδ : 0 < ρ "delta_c") (hz : 0 ≤ 
   split_ifs <;> positivity
 
 theorem Tinker08_nonneg (hν : 0 < ρ "nu2") (hδ : 0 < ρ "delta_c") (hz : 0 ≤ ρ "z")
-    (hA1 : 0 ≤ ρ "loc:Tinker08.A_0") (hA2 : 0 ≤ ρ "py:self.params['A_%s' % int(delta_halo)]")
-    (hb1 : 0 ≤ ρ "loc:Tinker08.b_0") (hb2 : 0 ≤ ρ "py:self.params['b_%s' % int(delta_halo)]") :
+    (hA1 : 0 ≤ ρ "loc:Tinker08.A_0") (hA2 : 0 ≤ ρ "py:self.params[f'A_{int(delta_halo)}']")
+    (hb1 : 0 ≤ ρ "loc:Tinker08.b_0") (hb2 : 0 ≤ ρ "py:self.params[f'b_{int(delta_halo)}']") :
     0 ≤ evalR opq ρ Gen.Fits.Tinker08_fsigma := by
   fit_unfold [Gen.Fits.Tinker08_fsigma]
   split_ifs <;> positivity
 
 /-- Tinker et al. (2010), both the tabulated-amplitude branch (z = 0) and the branch that normalises with Γ functions -/
 theorem Tinker10_nonneg (hν : 0 < ρ "nu2") (hz : 0 ≤ ρ "z")
-    (hα : 0 ≤ ρ "py:self.params['alpha_%s' % int(self.delta_halo)]")
-    (hβ : 0 < ρ "py:self.params['beta_%s' % int(delta_halo)]") (hβ0 : 0 < ρ "loc:Tinker10.beta_0")
-    (hγ0 : 0 < ρ "loc:Tinker10.gamma_0") (hγ : 0 < ρ "py:self.params['gamma_%s' % int(delta_halo)]")
+    (hα : 0 ≤ ρ "py:self.params[f'alpha_{int(self.delta_halo)}']")
+    (hβ : 0 < ρ "py:self.params[f'beta_{int(delta_halo)}']") (hβ0 : 0 < ρ "loc:Tinker10.beta_0")
+    (hγ0 : 0 < ρ "loc:Tinker10.gamma_0") (hγ : 0 < ρ "py:self.params[f'gamma_{int(delta_halo)}']")
     (hmz : 0 ≤ ρ "p.max_z") (hG : ∀ x, 0 < opq "Gamma" x) :
     0 ≤ evalR opq ρ Gen.Fits.Tinker10_fsigma := by
   fit_unfold [Gen.Fits.Tinker10_fsigma]
@@ -133,9 +133,9 @@ theorem Tinker10_nonneg (hν : 0 < ρ "nu2") (hz : 0 ≤ ρ "z")
 
 /-- Behroozi et al. (2013) uses the Tinker10 multiplicity (its correction acts on dn/dm, see C02) -/
 theorem Behroozi_nonneg (hν : 0 < ρ "nu2") (hz : 0 ≤ ρ "z")
-    (hα : 0 ≤ ρ "py:self.params['alpha_%s' % int(self.delta_halo)]")
-    (hβ : 0 < ρ "py:self.params['beta_%s' % int(delta_halo)]") (hβ0 : 0 < ρ "loc:Tinker10.beta_0")
-    (hγ0 : 0 < ρ "loc:Tinker10.gamma_0") (hγ : 0 < ρ "py:self.params['gamma_%s' % int(delta_halo)]")
+    (hα : 0 ≤ ρ "py:self.params[f'alpha_{int(self.delta_halo)}']")
+    (hβ : 0 < ρ "py:self.params[f'beta_{int(delta_halo)}']") (hβ0 : 0 < ρ "loc:Tinker10.beta_0")
+    (hγ0 : 0 < ρ "loc:Tinker10.gamma_0") (hγ : 0 < ρ "py:self.params[f'gamma_{int(delta_halo)}']")
     (hmz : 0 ≤ ρ "p.max_z") (hG : ∀ x, 0 < opq "Gamma" x) :
     0 ≤ evalR opq ρ Gen.Fits.Behroozi_fsigma := by
   fit_unfold [Gen.Fits.Behroozi_fsigma]
